@@ -70,7 +70,7 @@ func genC11(rt *rapid.T) core.Scenario {
 		faults = append(faults, "sql-next", "sql-next", "sql-query", "sql-close")
 	}
 	if sc.Store.Kind == "ds" {
-		faults = append(faults, "net-lost-request", "net-lost-response", "net-delay-past-deadline")
+		faults = append(faults, "net-lost-request", "net-lost-response", "net-delay-past-deadline", "net-http-404", "net-http-500")
 	}
 	sc.Fault = rapid.SampledFrom(faults).Draw(rt, "fault")
 	sc.K = rapid.IntRange(0, sc.L+1).Draw(rt, "k")
@@ -143,7 +143,7 @@ func (sc *C11Scenario) Execute(t *testing.T) *core.Outcome {
 			sf.FailQueryAt = sf.queries + sc.K%3
 		case "sql-close":
 			sf.FailCloseAt = sf.closes + sc.K%3
-		case "net-lost-request", "net-lost-response":
+		case "net-lost-request", "net-lost-response", "net-http-404", "net-http-500":
 			srv := env.servers["main"]
 			srv.GetFaults[srv.nGet+sc.K%3] = sc.Fault[4:]
 		case "net-delay-past-deadline":
@@ -209,7 +209,7 @@ func (sc *C11Scenario) Execute(t *testing.T) *core.Outcome {
 			fired += v
 		}
 		if srv := env.servers["main"]; srv != nil {
-			fired += srv.Fired["lost-request"] + srv.Fired["lost-response"] + srv.Fired["request-delayed"]
+			fired += srv.Fired["lost-request"] + srv.Fired["lost-response"] + srv.Fired["request-delayed"] + srv.Fired["http-404"] + srv.Fired["http-500"]
 		}
 		if fired > 0 || erred || cancelledAt >= 0 || sc.Fault == "cancel-before" {
 			out.Fault(sc.Fault)
